@@ -24,5 +24,6 @@ export CARGO_NET_OFFLINE=true
 ./translator/target/release/rs2v reinitrule /repo coq/Gen/ReinitGen.v
 ./translator/target/release/rs2v hashcache /repo coq/Gen/HashCacheGen.v
 ./translator/target/release/rs2v parenthash /repo coq/Gen/ParentHashGen.v
+./translator/target/release/rs2v varint /repo coq/Gen/VarIntGen.v
 (cd coq && coq_makefile -f _CoqProject -o Makefile >/dev/null && timeout 3000 make -j16 >/dev/null)
 echo setup done
